@@ -1140,6 +1140,51 @@ fn gen_seropts(rng: &mut Rng) -> SerOpts {
     o
 }
 
+/// Length of `body` up to the last byte of document content: trailing blank lines, comment lines and a
+/// trailing comment on the last content line do not belong to the content (a fault inside them cannot
+/// truncate the document).
+pub fn content_len(body: &str) -> usize {
+    let mut end = body.len();
+    loop {
+        let head = &body[..end];
+        let line_start = head.rfind('\n').map(|i| i + 1).unwrap_or(0);
+        let line = &head[line_start..];
+        let t = line.trim();
+        if t.is_empty() || t.starts_with('#') || t == "..." || t.starts_with("... ") {
+            if line_start == 0 {
+                return 0;
+            }
+            end = line_start - 1; // drop the line and its line break
+            while end > 0 && body.as_bytes()[end - 1] == b'\r' {
+                end -= 1;
+            }
+            continue;
+        }
+        // strip a trailing comment (" #" outside quotes)
+        let mut in_dq = false;
+        let mut in_sq = false;
+        let mut prev_blank = true;
+        let mut cut = line.len();
+        let mut it = line.char_indices().peekable();
+        while let Some((i, c)) = it.next() {
+            match c {
+                '\\' if in_dq => {
+                    it.next();
+                }
+                '"' if !in_sq => in_dq = !in_dq,
+                '\'' if !in_dq => in_sq = !in_sq,
+                '#' if !in_dq && !in_sq && prev_blank => {
+                    cut = i;
+                    break;
+                }
+                _ => {}
+            }
+            prev_blank = c == ' ' || c == '\t';
+        }
+        return line_start + line[..cut].trim_end().len();
+    }
+}
+
 /// Build a stream of valid documents for `target`, with the span of each document's text.
 pub fn gen_stream(target: Target, rng: &mut Rng, ndocs: usize) -> (String, Vec<(usize, usize)>) {
     let mut s = String::new();
@@ -1171,7 +1216,7 @@ pub fn gen_stream(target: Target, rng: &mut Rng, ndocs: usize) -> (String, Vec<(
         let start = s.len();
         s.push_str(&body);
         // the document is complete once its last content byte has been delivered
-        let end = start + body.trim_end().len();
+        let end = start + content_len(&body);
         spans.push((start, end));
         if rng.chance(1, 6) {
             s.push_str("...\n");
@@ -1268,7 +1313,7 @@ pub fn gen_case(plan: &Plan, tier: Tier, seed: u64, idx: u64) -> Case {
             },
         };
         // spans: only single-document texts carry a meaningful table
-        let spans = if text.contains("---") { vec![] } else { vec![(0, text.trim_end().len())] };
+        let spans = if text.contains("---") { vec![] } else { vec![(0, content_len(text))] };
         return Case::C10R(ReaderCase {
             doc: Doc::from_str(text),
             doc_spans: spans,
@@ -1298,7 +1343,7 @@ pub fn gen_case(plan: &Plan, tier: Tier, seed: u64, idx: u64) -> Case {
             REntry::ReadPlain,
         ][e];
         let target = if e >= 4 { Target::Json } else { t };
-        let l = text.trim_end().len();
+        let l = content_len(&text);
         let spans = vec![(0, l)];
         (text, spans, target, entry)
     } else {
@@ -1316,12 +1361,12 @@ pub fn gen_case(plan: &Plan, tier: Tier, seed: u64, idx: u64) -> Case {
                     let b = vcfg_doc(&mut rng);
                     let start = s.len();
                     s.push_str(&b);
-                    spans.push((start, start + b.trim_end().len()));
+                    spans.push((start, start + content_len(&b)));
                 }
                 (s, spans, Target::Cfg, entry)
             } else {
                 let b = vcfg_doc(&mut rng);
-                let l = b.trim_end().len();
+                let l = content_len(&b);
                 (b, vec![(0, l)], Target::Cfg, entry)
             }
         } else {
@@ -1334,7 +1379,7 @@ pub fn gen_case(plan: &Plan, tier: Tier, seed: u64, idx: u64) -> Case {
             } else {
                 let t = *rng.pick(&ALL_TARGETS);
                 let s = wl::gen_doc(t, &mut rng);
-                let l = s.trim_end().len();
+                let l = content_len(&s);
                 (s, vec![(0, l)], t, entry)
             }
         }
@@ -1545,7 +1590,7 @@ pub fn shrink_reader(c: &ReaderCase) -> Vec<Case> {
                 Sel::EofAt(k) => Sel::EofAt(removed_before(*k)),
                 s => s.clone(),
             };
-            n.doc_spans = vec![(0, String::from_utf8_lossy(&d).trim_end().len())];
+            n.doc_spans = vec![(0, content_len(&String::from_utf8_lossy(&d)))];
             n.doc = Doc(d);
             push(n);
         }
